@@ -25,7 +25,7 @@ func checkC07(p *Prog, r *Report) {
 	c07ScanContent(p, ls, r)
 	r.Rule("R4", "AddEntity/RemoveEntity notify the subscribers of node management exactly once, with the constant state added resp. removed, feature information attached iff added, after the entity list was updated")
 	c07Notify(p, ls, r)
-	r.Rule("R7", "RemoveEntity rebuilds the entity list keeping exactly the entries that are not the removed entity, without leaving the loop early; RemoveAllFeatures/AddEntity never drop other entries")
+	r.Rule("R7", "RemoveEntity rebuilds the entity list keeping exactly the entries that are not the removed entity (retain truth table), without leaving the loop early")
 	applyRetain(p, r, "R7", "spine", "DeviceLocal", "RemoveEntity", retainSpec{Field: F("DeviceLocal.entities"), Required: map[string]string{"entity": "=$"}})
 	r.Rule("R8", "every read-modify-write of the local entity list and of the local feature list reads and stores inside one critical section")
 	rebuildAtomic(p, ls, r, "R8", F("DeviceLocal.entities"), 2)
